@@ -135,8 +135,12 @@ class Env:
         for var, w, v in case["wvals"]:
             self.w.setdefault(var, {})[w] = float(v)
         self.wlists = dict((n, list(ws)) for n, ws in case["wlists"])
+        self.s = dict(((var, w, int(seg)), float(v)) for var, w, seg, v in case.get("svals", []))
 
     def scalar(self, name, args):
+        if name[0] == "S" and len(args) == 2:
+            # segment-level quantity (well, segment number): one number, i.e. a scalar sub-condition
+            return self.s[(name, args[0], int(float(args[1])))]
         if not args:
             if name in self.f:
                 return self.f[name]
@@ -327,6 +331,7 @@ GROUPPOOL = ["G1", "G2", "PLAT"]
 FVARS = ["FOPR", "FWCT", "FGOR", "FPR", "FOPT", "FUTEST"]
 GVARS = ["GOPR", "GWCT", "GGOR"]
 WVARS = ["WOPR", "WWCT", "WBHP", "WOPT", "WUVAL"]
+SVARS = ["SOFR", "SPR"]
 LISTNAMES = ["*LIST", "*LI2", "*PRD", "*EMPTY"]
 OPS = [">", "<", ">=", "<=", "=", "!=", ".GT.", ".LT.", ".GE.", ".LE.", ".EQ.", ".NE.",
        ".gt.", ".lt.", ".ge.", ".le.", ".eq.", ".ne.", ".Gt.", ".nE."]
@@ -394,6 +399,7 @@ def build_a(data):
     fvals += [["DAY", s.rng(1, 31)], ["MNTH", s.rng(1, 12)], ["YEAR", s.rng(1995, 2030)]]
     gvals = [[v, g, s.pick(levels)] for v in gvars for g in groups]
     wvals = [[v, w, s.pick(levels)] for v in wvars for w in wells]
+    svals = [[v, w, seg, s.pick(levels)] for v in SVARS for w in wells[:2] for seg in (1, 2, 3)] if s.below(3) == 0 else []
     lnames = s.subset(LISTNAMES, 0, 3)
     wlists = []
     for ln in lnames:
@@ -442,7 +448,10 @@ def build_a(data):
             q = s.pick(["DAY", "YEAR"])
             cur = dict((a, b) for a, b in fvals)[q]
             return [q, op, "%d" % (cur + s.rng(-1, 1))]
-        if k <= 3:
+        if k <= 3 and svals and s.below(2) == 0:
+            e = s.pick(svals)
+            lhs = [e[0], quote(e[1]), "%d" % e[2]]
+        elif k <= 3:
             lhs = [s.pick(fvars)]
         elif k == 4:
             lhs = [s.pick(gvars), quote(s.pick(groups))]
@@ -497,7 +506,7 @@ def build_a(data):
         records[-1].append(t)
         if t.lower() in ("and", "or") and s.below(3) > 0:
             records.append([])
-    return {"part": "A", "wells": wells, "fvals": fvals, "gvals": gvals, "wvals": wvals, "wlists": wlists,
+    return {"part": "A", "wells": wells, "fvals": fvals, "gvals": gvals, "wvals": wvals, "svals": svals, "wlists": wlists,
             "records": records, "num": s.pick(["", "1*", "1", "3", "10000"]),
             "wait": s.pick(["", "1*", "0", "2.5", "10"])}
 
@@ -832,7 +841,7 @@ class C18(Check):
         deck = ("RUNSPEC\nACTDIMS\n 2 50 80 %d /\nSCHEDULE\nACTIONX\n %s /\n" % (max(nrec, 3), hdr)
                 + "".join(" %s /\n" % " ".join(r) for r in case["records"]) + "/\nENDACTIO\n")
         r = ctx.P.call("action_eval", tokens=tokens, deck=deck, fvals=case["fvals"], gvals=case["gvals"],
-                       wvals=case["wvals"], wlists=case["wlists"], ask=case["wells"])
+                       wvals=case["wvals"], svals=case.get("svals", []), wlists=case["wlists"], ask=case["wells"])
         for entry in ("ast", "actionx"):
             o = r[entry]
             if "exc" in o or "parse_errors" in o:
